@@ -1611,12 +1611,14 @@ async fn emit_event(
     buffer: &Arc<Mutex<Vec<Event>>>,
     event_log: &EventLog,
 ) {
-    #[cfg(rip_verif)]
-    rip_kernel::verif::point("emit.publish");
-    let _ = sender.send(event.clone());
+    // Publish and record under the buffer lock: a subscriber takes its snapshot under the same
+    // lock, so it can never fall between the send and the push and miss the frame in both.
     #[cfg(rip_verif)]
     rip_kernel::verif::point("emit.lock");
     let mut guard = buffer.lock().await;
+    #[cfg(rip_verif)]
+    rip_kernel::verif::point("emit.publish");
+    let _ = sender.send(event.clone());
     #[cfg(rip_verif)]
     rip_kernel::verif::point("emit.record");
     guard.push(event.clone());
